@@ -75,55 +75,7 @@ func (c *Ctx) ruleParseErr(rule string) {
 					x, neq, isNil := core.NilCmp(cond.V)
 					return isNil && cond.True != neq && isErr(viaArg(cond, x))
 				}
-				holds := core.MustHold(fn, est)
-				bad := ""
-				var visit func(v ssa.Value, depth int)
-				visit = func(v ssa.Value, depth int) {
-					if v.Referrers() == nil || bad != "" {
-						return
-					}
-					for _, r := range *v.Referrers() {
-						switch x := r.(type) {
-						case *ssa.DebugRef:
-							continue
-						case *ssa.Return:
-							// handed on beside its error
-							paired := false
-							for _, res := range x.Results {
-								if isErr(res) {
-									paired = true
-								}
-							}
-							if paired {
-								continue
-							}
-						case *ssa.Phi:
-							// merged: what counts is the edge the number arrives on, and then the uses of the merge
-							okEdge := true
-							for i, e := range x.Edges {
-								if e == v && !holds[x.Block().Preds[i]] && !edgeEstablishes(x.Block().Preds[i], x.Block(), est) {
-									okEdge = false
-								}
-							}
-							if okEdge {
-								continue
-							}
-							bad = c.M.InstrPos(x)
-							if !x.Pos().IsValid() {
-								bad = c.M.InstrPos(call)
-							}
-							return
-						}
-						if !holds[r.Block()] {
-							bad = c.M.InstrPos(r)
-							if !r.Pos().IsValid() {
-								bad = c.M.InstrPos(call)
-							}
-							return
-						}
-					}
-				}
-				visit(num, 0)
+				bad := c.numberUses(fn, num, est, isErr, call, 0)
 				if bad == "" {
 					c.R.Ok(rule, k, c.M.InstrPos(call), "number parsed from text", "every use of the numeric result lies behind `err == nil` for the error of the same call, or hands number and error on together")
 				} else {
@@ -136,6 +88,130 @@ func (c *Ctx) ruleParseErr(rule string) {
 	if n == 0 {
 		c.R.Unresolved(rule, "a call of strconv.ParseFloat / ParseInt / ParseUint / Atoi")
 	}
+}
+
+// numberUses: the uses of num (a number that is only good where est holds) in fn; the position of a use that is reached
+// without est, "" if there is none. A use is where the number (or what is computed from it) leaves the arithmetic: handed
+// to a call, stored, returned, or decides a branch. Arithmetic and comparisons on the way only pass it on - `overflows :=
+// n > limit` may be worked out before the error is looked at, as long as nothing is done with it before. A return that
+// hands the number out beside the error, or beside a verdict computed from the error (`return n, err == nil`), moves
+// the obligation to the call sites, where the verdict stands for the error.
+func (c *Ctx) numberUses(fn *ssa.Function, num ssa.Value, est func(core.Cond) bool, isErr func(ssa.Value) bool, origin *ssa.Call, level int) string {
+	holds := core.MustHold(fn, est)
+	bad := ""
+	seen := map[ssa.Value]bool{}
+	errMerge := map[ssa.Value]ssa.Value{} // merged number -> the merge that carries its error
+	var visit func(v ssa.Value, depth int)
+	visit = func(v ssa.Value, depth int) {
+		if v.Referrers() == nil || bad != "" || seen[v] || depth > 6 {
+			return
+		}
+		seen[v] = true
+		for _, r := range *v.Referrers() {
+			if bad != "" {
+				return
+			}
+			switch x := r.(type) {
+			case *ssa.DebugRef:
+				continue
+			case *ssa.Return:
+				paired := false
+				for j, res := range x.Results {
+					if isErr(res) || (errMerge[v] != nil && res == errMerge[v]) {
+						paired = true // handed on beside its error
+						continue
+					}
+					// ... or beside a verdict: `err == nil` / `err != nil`
+					e, neq, isNil := core.NilCmp(res)
+					if !isNil || !isErr(e) || level > 1 {
+						continue
+					}
+					numIdx := -1
+					for i, res2 := range x.Results {
+						if res2 == v {
+							numIdx = i
+						}
+					}
+					sites := core.PlainSites(fn)
+					if numIdx < 0 || len(sites) == 0 {
+						continue
+					}
+					paired = true
+					for _, site := range sites {
+						var numEx, okEx *ssa.Extract
+						if site.Referrers() != nil {
+							for _, sr := range *site.Referrers() {
+								if ex, isEx := sr.(*ssa.Extract); isEx {
+									if ex.Index == numIdx {
+										numEx = ex
+									}
+									if ex.Index == j {
+										okEx = ex
+									}
+								}
+							}
+						}
+						if numEx == nil {
+							continue
+						}
+						good := !neq // `err == nil`: the verdict true stands for "no error"
+						est2 := func(cond core.Cond) bool {
+							return okEx != nil && core.Unwrap(cond.V) == ssa.Value(okEx) && cond.True == good
+						}
+						if b2 := c.numberUses(site.Parent(), numEx, est2, func(ssa.Value) bool { return false }, site, level+1); b2 != "" && bad == "" {
+							bad = b2
+						}
+					}
+				}
+				if paired {
+					continue
+				}
+			case *ssa.BinOp, *ssa.UnOp, *ssa.Convert, *ssa.ChangeType:
+				if !holds[r.Block()] {
+					visit(r.(ssa.Value), depth+1)
+				}
+				continue
+			case *ssa.Phi:
+				// merged: what counts is the edge the number arrives on, and then the uses of the merge
+				okEdge := true
+				for i, e := range x.Edges {
+					if e == v && !holds[x.Block().Preds[i]] && !edgeEstablishes(x.Block().Preds[i], x.Block(), est) {
+						okEdge = false
+					}
+				}
+				if !okEdge {
+					// the error may be merged alongside (one result variable for the number, one for the error): the merge
+					// of the block that carries the error on every edge on which this one carries the number
+					for _, in := range x.Block().Instrs {
+						y, isPhi := in.(*ssa.Phi)
+						if !isPhi || y == x {
+							continue
+						}
+						along := true
+						for i, e := range x.Edges {
+							if e == v && !(isErr(y.Edges[i]) || (errMerge[v] != nil && y.Edges[i] == errMerge[v])) {
+								along = false
+							}
+						}
+						if along {
+							errMerge[x] = y
+						}
+					}
+					visit(x, depth+1)
+				}
+				continue
+			}
+			if !holds[r.Block()] {
+				bad = c.M.InstrPos(r)
+				if !r.Pos().IsValid() {
+					bad = c.M.InstrPos(origin)
+				}
+				return
+			}
+		}
+	}
+	visit(num, 0)
+	return bad
 }
 
 // edgeEstablishes: the edge from -> to carries a condition that est accepts.
@@ -171,11 +247,11 @@ func (c *Ctx) ruleOfferAll(rule string) {
 				if !src.Call.IsInvoke() && len(src.Call.Args) > 0 {
 					recv = src.Call.Args[0]
 				}
-				if len(fn.Params) > 0 && core.Unwrap(recv) == ssa.Value(fn.Params[0]) {
+				if fn.Signature.Recv() != nil && len(fn.Params) > 0 && core.Unwrap(recv) == ssa.Value(fn.Params[0]) {
 					continue // the receiver's own properties
 				}
 				// the loop fills a map made in this function, with the key and the value of the entry, and that map is handed
-				// to a function of the package afterwards
+				// to a function of the package afterwards (or handed out to the caller)
 				var next *ssa.Next
 				for _, r := range *rg.Referrers() {
 					if nx, isNext := r.(*ssa.Next); isNext {
@@ -213,6 +289,9 @@ func (c *Ctx) ruleOfferAll(rule string) {
 				for _, r := range *store.Map.(*ssa.MakeMap).Referrers() {
 					if hc, isCall := r.(*ssa.Call); isCall && core.StaticBody(&hc.Call) != nil {
 						handed = true
+					}
+					if _, isRet := r.(*ssa.Return); isRet {
+						handed = true // a helper that builds the table for its caller
 					}
 				}
 				if !handed {
@@ -381,4 +460,173 @@ func kindConst(c *Ctx, name string) int64 {
 		}
 	}
 	return -1
+}
+
+// R-HANDLERARG (C11 "the run's step data is the only step data its signal handlers see"): a value that comes out of a
+// comma-ok type assertion is the zero value of the asserted type when the assertion fails. Where such a value is handed
+// to a handler - a call of a function value kept in a field of the receiver - it is handed over only where the
+// assertion is known to have succeeded: on the way of every merge edge that carries it, or at the call itself. With the
+// verdict dropped (`typed, _ := stepData.(StepData)`) a handler declared with another step-data type runs on a zero
+// value that is not the run's data, and the call reports success.
+func (c *Ctx) ruleHandlerArg(rule string) {
+	n := 0
+	for _, fn := range c.M.SortedFuncs(c.scopePkg("schema")) {
+		idx := 0
+		for _, b := range fn.Blocks {
+			for _, in := range b.Instrs {
+				ta, ok := in.(*ssa.TypeAssert)
+				if !ok || !ta.CommaOk || ta.Referrers() == nil {
+					continue
+				}
+				var val, okv *ssa.Extract
+				for _, r := range *ta.Referrers() {
+					if ex, isEx := r.(*ssa.Extract); isEx {
+						if ex.Index == 0 {
+							val = ex
+						} else {
+							okv = ex
+						}
+					}
+				}
+				if val == nil {
+					continue
+				}
+				est := func(cond core.Cond) bool {
+					return okv != nil && core.Unwrap(cond.V) == ssa.Value(okv) && cond.True
+				}
+				var holds map[*ssa.BasicBlock]bool
+				// the calls of a function value read from a field of the receiver that are handed the value
+				bad, found := "", false
+				seen := map[ssa.Value]bool{}
+				var follow func(v ssa.Value, good bool, depth int)
+				follow = func(v ssa.Value, good bool, depth int) {
+					if v.Referrers() == nil || seen[v] || depth > 4 {
+						return
+					}
+					seen[v] = true
+					for _, r := range *v.Referrers() {
+						switch x := r.(type) {
+						case *ssa.Phi:
+							if holds == nil {
+								holds = core.MustHold(fn, est)
+							}
+							edgeGood := true
+							for i, e := range x.Edges {
+								if e == v && !good && !holds[x.Block().Preds[i]] && !edgeEstablishes(x.Block().Preds[i], x.Block(), est) {
+									edgeGood = false
+								}
+							}
+							follow(x, edgeGood, depth+1)
+						case *ssa.MakeInterface, *ssa.ChangeType, *ssa.ChangeInterface:
+							follow(x.(ssa.Value), good, depth+1)
+						case *ssa.Call:
+							if x.Call.IsInvoke() || x.Call.StaticCallee() != nil {
+								continue
+							}
+							ld, isLoad := x.Call.Value.(*ssa.UnOp)
+							if !isLoad {
+								continue
+							}
+							fa, isField := ld.X.(*ssa.FieldAddr)
+							if !isField || len(fn.Params) == 0 || !reachedFrom(fa.X, fn.Params[0], 0) {
+								continue
+							}
+							found = true
+							if holds == nil {
+								holds = core.MustHold(fn, est)
+							}
+							if !good && !holds[x.Block()] && bad == "" {
+								bad = c.M.InstrPos(x)
+							}
+						}
+					}
+				}
+				follow(val, false, 0)
+				if !found {
+					continue
+				}
+				idx++
+				n++
+				k := key(rule, c.M.Key(fn), sprintf("asserted value #%d reaches the handler only where the assertion succeeded", idx))
+				if bad == "" {
+					c.R.Ok(rule, k, c.M.InstrPos(ta), "argument of a handler", "handed over only behind the true verdict of the assertion it came out of (on the merge edge that carries it, or at the call)")
+				} else {
+					c.R.Bad(rule, k, bad, "a handler is called with what a failed type assertion leaves behind",
+						"the verdict of the comma-ok assertion is not consulted on the way: for a value of another type the handler runs on the zero value of the asserted type - not the data it was registered for - and the call reports success")
+				}
+			}
+		}
+	}
+	if n == 0 {
+		c.R.Unresolved(rule, "a handler (function value in a field of the receiver) that is handed the result of a comma-ok type assertion")
+	}
+}
+
+// R-CTORFLAG (C18 "an error the handler returned is reported as function-reported, a call-shape problem is not"): the
+// constructor of the call error takes the error and the flag that says which of the two it is. Every value it hands
+// out is a record made there, in which the flag field holds the flag parameter and an error field the error parameter:
+// a constructor that hands back something it was given (an existing call error found with errors.As, "do not wrap
+// twice") silently ignores the flag for that input - a nested call-shape error that the handler returned is reported as
+// not function-reported, and what the handler wrapped around it is gone.
+func (c *Ctx) ruleCtorFlag(rule string) {
+	fn := c.fn(rule, "schema.NewFunctionCallError")
+	if fn == nil {
+		return
+	}
+	var flagP, errP *ssa.Parameter
+	for _, p := range fn.Params {
+		if bt, ok := p.Type().Underlying().(*types.Basic); ok && bt.Kind() == types.Bool {
+			flagP = p
+		}
+		if core.IsErrorType(p.Type()) {
+			errP = p
+		}
+	}
+	k := key(rule, c.M.Key(fn), "every value handed out is made here from the error and the flag that were given")
+	if flagP == nil || errP == nil || fn.Signature.Results().Len() != 1 {
+		c.R.Unresolved(rule, "the constructor of the call error with an error and a flag parameter")
+		return
+	}
+	bad := ""
+	sites := core.RetSites(fn, 0)
+	for _, site := range sites {
+		v := core.Unwrap(site.Val)
+		if mi, ok := v.(*ssa.MakeInterface); ok {
+			v = mi.X
+		}
+		al, isAlloc := v.(*ssa.Alloc)
+		if !isAlloc {
+			if ld, isLoad := v.(*ssa.UnOp); isLoad {
+				al, isAlloc = ld.X.(*ssa.Alloc)
+			}
+		}
+		hasFlag, hasErr := false, false
+		if isAlloc && al.Referrers() != nil {
+			for _, r := range *al.Referrers() {
+				fa, ok := r.(*ssa.FieldAddr)
+				if !ok || fa.Referrers() == nil {
+					continue
+				}
+				for _, r2 := range *fa.Referrers() {
+					if st, ok := r2.(*ssa.Store); ok && st.Addr == ssa.Value(fa) {
+						if st.Val == ssa.Value(flagP) {
+							hasFlag = true
+						}
+						if core.Unwrap(st.Val) == ssa.Value(errP) {
+							hasErr = true
+						}
+					}
+				}
+			}
+		}
+		if !(hasFlag && hasErr) && bad == "" {
+			bad = c.M.InstrPos(site.Ret)
+		}
+	}
+	if bad == "" && len(sites) > 0 {
+		c.R.Ok(rule, k, c.M.Pos(fn.Pos()), "constructor of the call error", "every way out returns a record made here whose fields are stored from the error and the flag parameters")
+	} else {
+		c.R.Bad(rule, k, bad, "the constructor of the call error hands out something else than a record made from its arguments",
+			"for that input the flag is ignored: Call reports a handler's error with the flag of whatever error was found inside it, and the error value is not the one the handler returned")
+	}
 }
